@@ -41,6 +41,12 @@ def run(ctx):
                         "(they need evaluation over 64-bit data); their panic freedom is rule E2p"]
     ctfe_rule(ctx, "E3", "C20")
     valuerules.char_tables_rule(ctx, facts, "E2c")
+    ctx.decided += [
+        "E5 string level: Display/FromStr of Coord (64 values), Cell (13), Color (2), CastlingRights (16) - each value is written in its "
+        "documented spelling and read back as itself (models evaluated); 29 near-miss texts are refused without a panic",
+    ]
+    from . import textrules
+    textrules.types_text_rule(ctx, facts, "E5")
     valuerules.operator_rule(ctx, facts, "E2o")
     valuerules.shift_rule(ctx, facts, "E2s")
     total_roots_rule(ctx, facts, "E2p", [
